@@ -1147,10 +1147,12 @@ class slice(Stream):
 
     def _check_end(self):
         if self.end is not None and self.state >= self.end:
-            # we're done
-            for upstream in self.upstreams:
+            # we're done: take the node out of the graph, seen from both ends
+            # of every edge (not only from the upstream's)
+            for upstream in list(self.upstreams):
                 if self in upstream.downstreams:
                     upstream._remove_downstream(self)
+                    self._remove_upstream(upstream)
 
 
 @Stream.register_api()
